@@ -606,11 +606,26 @@ class Engine:
             goal = goal.e
         t0 = time.time()
         r = self._check(z3.Not(goal))
+        msolver = self.solver
+        if r == z3.unknown:
+            # the incremental solver gave up (time budget): the verdict must not depend on machine load or on solver luck, so the query is
+            # repeated from scratch with other seeds and a larger budget before it is reported as undecided
+            for attempt, seed in enumerate((7, 23)):
+                s2 = z3.Solver()
+                s2.set("timeout", int(self.timeout_ms * (2 + 2 * attempt)))
+                s2.set("random_seed", seed)
+                s2.add(*self.solver.assertions())
+                s2.add(z3.Not(goal))
+                r2 = s2.check()
+                self.queries += 1
+                if r2 != z3.unknown:
+                    r, msolver = r2, s2
+                    break
         secs = time.time() - t0
         if r == z3.unsat:
             ob = Obligation(full, kind, "proved", detail, None, secs, "z3", self.path_id)
         elif r == z3.sat:
-            m = self.solver.model()
+            m = msolver.model()
             ob = Obligation(full, kind, "refuted", detail + f" | goal: {goal}", _model_dict(m), secs, "z3", self.path_id)
         else:
             ob = Obligation(full, kind, "unknown", detail + f" | goal: {goal} | reason: {self.solver.reason_unknown()}", None, secs, "z3", self.path_id)
@@ -645,6 +660,17 @@ class Engine:
         s.add(z3.Not(ab[-1]))
         t0 = time.time()
         r = s.check()
+        if r == z3.unknown:
+            for attempt, seed in enumerate((7, 23)):     # same policy as `oblige`: retry from scratch before reporting undecided
+                s2 = z3.Solver()
+                s2.set("timeout", int(self.timeout_ms * (2 + 2 * attempt)))
+                s2.set("random_seed", seed)
+                s2.add(*s.assertions())
+                r2 = s2.check()
+                self.queries += 1
+                if r2 != z3.unknown:
+                    r, s = r2, s2
+                    break
         secs = time.time() - t0
         self.solver_secs += secs
         self.queries += 1
